@@ -33,17 +33,7 @@ theorem C09_print_accepted (path : String) (j : List Day) (hp : PrintableJournal
 /-- **`knut print` reproduces its own output**: on the printed text of an accepted printable journal the command prints
 that text -/
 theorem C09_print_fixpoint (path : String) (j : List Day) (hp : PrintableJournal j) (hacc : (Check.run j).isOk = true) :
-    printFile path (strBytes (print j)) = .ok (print j) := by
-  unfold printFile
-  rw [load_print path j hp.dirs]
-  simp only
-  have h1 := check_normDays j
-  rw [hacc, ← rebuild j hp.shape] at h1
-  cases hc : Check.run (Builder.ofList (journalDirs j)).build with
-  | error e => rw [hc] at h1; cases h1
-  | ok st =>
-    simp only
-    rw [rebuild j hp.shape, print_normDays]
+    printFile path (strBytes (print j)) = .ok (print j) := printFile_fixpoint path j hp hacc
 
 /-- a rejected journal stays rejected after printing (the printed text loads, the checker refuses it) -/
 theorem C09_print_rejected (path : String) (j : List Day) (hp : PrintableJournal j) (hrej : (Check.run j).isOk = false) :
